@@ -426,7 +426,10 @@ static inline std::vector<P2> grid_points(const Array<Vec2>& a, double scaling) 
 // detected circles once the re-loaded polygon has been checked against the original within tolerance)
 typedef std::map<std::pair<std::string, size_t>, std::string> PolySubst;
 
-static inline Dump library_dump(const Library& lib, const PolySubst* subst = NULL) {
+// `unit_step_paths` (optional) receives the text of every PATH line whose stored spine has two consecutive points
+// within sqrt(2) grid steps of each other (the input class of the grid-step finding; the canonical centre line may
+// hide such a step when it is collinear with its neighbours)
+static inline Dump library_dump(const Library& lib, const PolySubst* subst = NULL, std::set<std::string>* unit_step_paths = NULL) {
     Dump d;
     double scaling = lib.unit / lib.precision;
     {
@@ -464,6 +467,13 @@ static inline Dump library_dump(const Library& lib, const PolySubst* subst = NUL
                              hex_i64(e0) + " " + hex_i64(e1) + "|" +
                              pts_text(canon_line(grid_points(p->spine.point_array, scaling))) + "|" +
                              rep_text(rep_offsets_of(p->repetition, scaling)) + "|" + props_text(props_of(p->properties)));
+                if (unit_step_paths) {
+                    std::vector<P2> raw = grid_points(p->spine.point_array, scaling);
+                    for (size_t k = 1; k < raw.size(); k++) {
+                        int64_t dx = raw[k].first - raw[k - 1].first, dy = raw[k].second - raw[k - 1].second;
+                        if (dx * dx + dy * dy <= 2) unit_step_paths->insert(ls.back());
+                    }
+                }
             }
         }
         for (uint64_t i = 0; i < c->robustpath_array.count; i++) {
@@ -749,7 +759,9 @@ struct Gen {
         switch (g.below(8)) {
             case 0: return g.range(-40, 40);
             case 1: return g.range(-70000, 70000);        // more than two bytes of a signed integer
-            case 2: return g.range(-(1LL << 33), 1LL << 33);  // beyond 32 bits
+            case 2:  // beyond 32 bits (only in the layouts that also carry the known-defect input classes: the circle
+                     // fit of is_circle loses the grid that far from the origin)
+                return with_defect_classes ? g.range(-(1LL << 33), 1LL << 33) : g.range(-(1LL << 24), 1LL << 24);
             default: return g.range(-span, span);
         }
     }
@@ -895,6 +907,13 @@ struct Gen {
         if (g.coin()) std::reverse(p.begin(), p.end());
     }
     std::vector<P2> star_polygon(int n, int64_t cx, int64_t cy, int64_t rad) {
+        for (int attempt = 0; attempt < 8; attempt++) {
+            std::vector<P2> r = star_polygon_once(n, cx, cy, rad);
+            if (!r.empty()) return r;
+        }
+        return {{cx, cy}, {cx + rad + 1, cy}, {cx + 3, cy + rad + 1}};
+    }
+    std::vector<P2> star_polygon_once(int n, int64_t cx, int64_t cy, int64_t rad) {
         // n points at distinct directions around (cx, cy), sorted by exact angle
         std::vector<P2> d;
         for (int tries = 0; tries < 200 && (int)d.size() < n; tries++) {
@@ -919,21 +938,23 @@ struct Gen {
             const P2 &a = d[i], &b = d[(i + 1) % d.size()];
             if ((__int128)a.first * b.second - (__int128)a.second * b.first <= 0) ok = false;
         }
-        if (!ok) return {{cx, cy}, {cx + rad + 1, cy}, {cx, cy + rad + 1}};
+        if (!ok) return {};
         for (auto& v : d) { v.first += cx; v.second += cy; }
         return d;
     }
     std::vector<P2> staircase(int64_t x, int64_t y) {
         // Manhattan polygon: monotone staircase closed along the axes
         int steps = (int)g.range(1, 4);
+        // without the defect classes keep many-vertex polygons larger than sqrt(circle tolerance) in user units
+        int64_t lo = with_defect_classes ? 1 : 30, hi = with_defect_classes ? 30 : 80;
         std::vector<P2> p;
         int64_t cx = x, cy = y;
         p.push_back(P2(cx, cy));
         int64_t total_h = 0;
         for (int i = 0; i < steps; i++) {
-            cx += g.range(1, 30);
+            cx += g.range(lo, hi);
             p.push_back(P2(cx, cy));
-            int64_t dy = g.range(1, 30);
+            int64_t dy = g.range(lo, hi);
             cy += dy;
             total_h += dy;
             p.push_back(P2(cx, cy));
@@ -998,7 +1019,7 @@ struct Gen {
             p.shape = "manhattan";
         } else if (sel < 78) {
             // octangular: a rectangle with cut corners
-            int64_t w = g.range(20, 200), h = g.range(20, 200), c = g.range(1, 9);
+            int64_t w = g.range(with_defect_classes ? 20 : 70, 200), h = g.range(with_defect_classes ? 20 : 70, 200), c = g.range(1, 9);
             p.pts = {{x + c, y}, {x + w - c, y}, {x + w, y + c}, {x + w, y + h - c}, {x + w - c, y + h}, {x + c, y + h},
                      {x, y + h - c}, {x, y + c}};
             rotate_reverse(p.pts);
@@ -1040,14 +1061,16 @@ struct Gen {
         int n = (int)g.range(2, 7);
         int64_t x = coord(), y = coord();
         int style = (int)g.below(4);  // 0 manhattan alternating, 1 manhattan, 2 octangular, 3 general
-        int64_t unit_step = p.robust ? 4 : 1;
+        // a RobustPath is written with 4 samples per segment: keep them 2 grid steps apart unless the grid-step
+        // defect class is wanted
+        int64_t unit_step = p.robust ? (with_defect_classes ? 4 : 8) : 1;
         p.pts.push_back(P2(x, y));
         bool horiz = g.coin();
         for (int i = 1; i < n; i++) {
             int64_t dx = 0, dy = 0;
             for (int tries = 0; tries < 20 && dx == 0 && dy == 0; tries++) {
                 int64_t a = unit_step * g.range(-30, 30), b = unit_step * g.range(-30, 30);
-                if (!p.robust && g.chance(5)) a = g.coin() ? 1 : -1;  // single grid step
+                if (!p.robust && with_defect_classes && g.chance(12)) a = g.coin() ? 1 : -1;  // single grid step
                 switch (style) {
                     case 0: if (horiz) dx = a; else dy = a; break;
                     case 1: if (g.coin()) dx = a; else dy = a; break;
@@ -1111,11 +1134,13 @@ struct Gen {
             names.insert(n);
             L.outside.push_back(n);
         }
-        bool dangling_cell_refs = with_defect_classes && g.chance(12);  // F5 input class
-        L.props = props(40, with_defect_classes && g.chance(20));
+        bool dangling_cell_refs = with_defect_classes && g.chance(35);  // F5 input class
+        // F1 input class (a property list made only of the writer's own S_* entries) is avoided in half of the layouts
+        bool all_props = g.chance(50);
+        L.props = props(all_props ? 100 : 40, with_defect_classes && g.chance(20));
         for (int i = 0; i < nc; i++) {
             ACell& c = L.cells[i];
-            c.props = props(35, with_defect_classes && g.chance(20));
+            c.props = props(all_props ? 100 : 35, with_defect_classes && g.chance(20));
             int np = (int)g.below(6), npa = (int)g.below(4), nl = (int)g.below(4), nr = (int)g.below(4);
             if (g.chance(10)) np = npa = nl = nr = 0;  // empty cell
             for (int k = 0; k < np; k++) c.polys.push_back(polygon());
